@@ -109,6 +109,7 @@ def c04_scan(ctx):
     cl = {"first_assignment": "first spin assignment built under these particle names: density == closed form, rtol 1e-8",
           "later_assignment": "spin assignment built after other assignments under the same particle names were built and evaluated in this process: "
                               "density == its own closed form, rtol 1e-8"}
+    cl["after_set_params"] = "same model object re-evaluated after set_params changed every mass, width and coupling: density == closed form at the new values, rtol 1e-8"
     for k, c in cl.items():
         acc.declare(k, c)
     mset = list(M.MASS_SETS)[ctx.seed % len(M.MASS_SETS)]
@@ -141,5 +142,21 @@ def c04_scan(ctx):
                         "params": {k: float(v) for k, v in sub.items()}, "config_dict": cfg}
 
             _compare(acc, name, cl[name], d, ref, IA.C04_RTOL, wit)
+            if S is keys:
+                # the same model object after a parameter update (mass scan / systematic variation): masses and widths are FIXED parameters
+                # by default, set_params still changes them
+                rs2 = np.random.RandomState(ctx.seed * 991 + di + 5000)
+                sub2 = {k: v for k, v in IA._c04_params(amp, sname, rs2).items() if k in amp.get_params()}
+                M.set_params(amp, sub2)
+                d2 = M.density(config, amp, sname, ps)
+                ref2 = IA.c04_reference(sname, S, sub2, ps)
+
+                def wit2(i, ratio, d2=d2, ref2=ref2, cname=cname, sub=sub, sub2=sub2, cfg=cfg, ps=ps, spins=spins):
+                    return {"config": cname, "spins(R_BC,R_BD,R_CD)": list(spins), "sequence": "evaluate at params_1, set_params(params_2), evaluate",
+                            "event": i, "density": float(d2[i]), "closed_form": float(ref2[i]), "n_events_failing": int(np.sum(ratio > 1)),
+                            "p4": IA._event(sname, ps, i), "params_1": {k: float(v) for k, v in sub.items()}, "params_2": {k: float(v) for k, v in sub2.items()},
+                            "config_dict": cfg}
+
+                _compare(acc, "after_set_params", cl["after_set_params"], d2, ref2, IA.C04_RTOL, wit2)
         history.append(spins)
     acc.flush()
